@@ -384,7 +384,10 @@ def depth_bound(text):
 PAYLOAD_ATOMS = ['"', "'", '<', '>', '&', '\\', '`', ' ', '(', ')', '[', ']', '{', '}', '=', '/', ';', '#', '%', '\t',
                  'onerror=', 'javascript:', '<script>', '</a>', '-->', '&quot;', '&#34;', '&lt;', 'x', 'é', '"><b>', "' x='", '\\"', '%22', '{inner}', '{0}']
 CLASSIC = ['x"onerror="alert(1)', '"><script>alert(1)</script>', "' onmouseover='x", 'javascript:alert("1")', 'a&b<c>d"e\'f',
-           '</code></pre><b>', 'http://a@b/"x', 'x" y="z', '{inner}', '&#34;&#60;', '\\"\\<', 'a"b', 'a<b', 'a>b', '<', '>', '"']
+           '</code></pre><b>', 'http://a@b/"x', 'x" y="z', '{inner}', '&#34;&#60;', '\\"\\<', 'a"b', 'a<b', 'a>b', '<', '>', '"',
+           # text decoded with errors='surrogateescape' carries lone surrogates: the URL quoting cannot encode them (outside C01's domain;
+           # whatever comes out must still be well-formed)
+           'caf\udce9"onmouseover="alert(1)', '\udc80<b>', '\ud800"']
 TEMPLATES = [
     '[t]({p})', '[t](<{p}>)', '[t](u "{p}")', '[*e* **s** `c` t](u "{p}")', '[*e* t][r]\n\n[r]: u \'{p}\'', '![*e* t](u "{p}")', "[t](u '{p}')", '[t](u ({p}))', '[{p}](u)', '![{p}](u)', '![a]({p})', '![a](<{p}>)',
     '![a](u "{p}")', '![*{p}*](u)', '![`{p}`](u)', '![a [{p}](v) b](u)', '[ref]: {p}\n\n[ref]', '[ref]: u "{p}"\n\n![a][ref]',
@@ -392,21 +395,26 @@ TEMPLATES = [
     '```{p}\ncode {q}\n```', '~~~ {p}\ncode\n~~~', '~~~{p} {q}\n{p}\n~~~', '    {p}', '`{p}`', '``{p}``', '*{p}*', '**{p}**', '~~{p}~~',
     '# {p}', '{p}\n===', '> {p}', '- {p}', '1. {p}', '| {p} | b |\n|---|:-:|\n| c | {q} |', '|{p}|\n|-|\n|`{q}`|', '{p}  \n{q}', '{p}\\\n{q}',
     '<div>{p}</div>', '<!-- {p} -->', 'a <b {p}> c', 'a <b x="{p}"> c', '&{p};', '&#{p};', '\\{p}', '{p}',
+    # raw inline HTML inside an image description ends up in the alt attribute
+    '![a <b x="{q}"> c](u)', '![<i class="big"> {p}](u "t")', '![a <!-- {q} --> b](u)', '[![x <b {q}> y](s)](u "{p}")', '![a <?{q}?> </b>][r]\n\n[r]: u',
 ]
 
 
-def payload(rng):
+SURROGATE_PAYLOADS = 3      # the last entries of CLASSIC
+
+
+def payload(rng, surrogates=False):
     r = rng.random()
     if r < 0.35:
-        return rng.choice(CLASSIC)
+        return rng.choice(CLASSIC if surrogates else CLASSIC[:-SURROGATE_PAYLOADS])
     return ''.join(rng.choice(PAYLOAD_ATOMS) for _ in range(rng.randint(1, 6)))
 
 
-def payload_doc(rng):
+def payload_doc(rng, surrogates=False):
     parts = []
     for _ in range(rng.choice((1, 1, 2, 3))):
         t = rng.choice(TEMPLATES)
-        parts.append(t.replace('{p}', payload(rng)).replace('{q}', payload(rng)))
+        parts.append(t.replace('{p}', payload(rng, surrogates)).replace('{q}', payload(rng, surrogates)))
     sep = rng.choice(('\n\n', '\n', ' '))
     return sep.join(parts) + '\n'
 
